@@ -2,7 +2,7 @@
 # Sensitivity regression: run every filed seeded change against the check(s) of the property it breaks.
 #   tools/run_seeded.sh [ids...]      writes seeded/SUMMARY.txt ; exit 1 if any change is no longer detected
 V=$(cd "$(dirname "$0")/.." && pwd); cd "$V" || exit 2
-ids="$*"; [ -z "$ids" ] && ids=$(ls seeded | grep -v SUMMARY)
+ids="$*"; [ -z "$ids" ] && ids=$(ls seeded | grep -v -E "SUMMARY|SEEDS")
 out=seeded/SUMMARY.txt; : > $out.tmp; bad=0
 for id in $ids; do
   prop=$(python3 -c "import json;m=json.load(open('seeded/$id/meta.json'));print(m.get('check_with',m['breaks_property']))")
